@@ -53,13 +53,26 @@ def build(tier):
             for ent, what in (('h_attacks', 'inCheck/sqAttacked/canTakeKing == oracle'), ('h_islegal', 'isLegal == oracle legality for every pseudo-legal move of the mover; board restored'),
                               ('h_removeillegal', 'removeIllegal keeps the singleton pseudo-legal move iff it is legal; board restored'), ('h_givescheck', 'givesCheck == oracle for every legal move of the mover')):
                 if ent == 'h_attacks' and par > 1: continue
+                # quick-tier budget (about 10 minutes on 16 cores): removeIllegal on ordinary king / extra-man moves costs 600-900 s per case and runs in the thorough tier only
+                slow = ent == 'h_removeillegal' and K == 3 and par in (0, 1, 2, K + 2)
                 obs.append(Ob('O3-%s-K%d@%d' % (ent[2:], K, par), uv, ent, '%d-man positions, %s: %s' % (K, who, what), unwind=65, unwindset='%s:9,%s:9' % (NP, NPS), param=par,
-                              core=(K == 3), timeout=1800 if K == 3 else 5400, mem_gb=12, functions=VF, backend='kissat',
+                              core=(K == 3), tiers=('thorough',) if slow else ('quick', 'thorough'), timeout=1800 if K == 3 else 5400, mem_gb=12, functions=VF, backend='kissat',
                               stubs=['rookAttacks/bishopAttacks -> 7-step ray fill, firstBit/lastBit -> ctz/clz (proved equal for all arguments by O1-rook/O1-bishop/O1-bits)'],
                               bounds=('two kings + %d further men of any kind on any squares (%s), any side to move/castling rights/en-passant square accepted by the FEN reader; every (to, promotion) for the chosen mover'
                                       % (K - 2, 'men may be absent' if K == 3 else 'all present; fewer men are covered by K=3')),
                               assumptions=['position domain = FEN-reader acceptance: one king each, no pawn on ranks 1/8, castling right => king and rook at home, ep square => right rank, empty, double-pushed pawn in front; side not to move not in check',
                                            'moves offered to isLegal/removeIllegal are pseudo-legal in the generators\' sense (castling only when not in check and not through check)']))
+    # ---- O3-ep: the en-passant family on 5 men (own king + capturing pawn, enemy king + pushed pawn + one more enemy man): pins through the vanishing pawn
+    uep = Unit('verdicts5ep', 'C01/verdicts.cpp', ['h_islegal', 'h_removeillegal', 'h_givescheck'], defines={'NMEN': 5, 'EPONLY': None}, allow_extern=[r'_ZN11NNEvaluator.*'],
+               aliases=SUBST, lemmas=['O1-rook', 'O1-bishop', 'O1-bits'])
+    units.append(uep)
+    for col in (0, 1):
+        par = 2 + 5 * (col + 2 * 6)
+        for ent, what in (('h_islegal', 'isLegal'), ('h_removeillegal', 'removeIllegal'), ('h_givescheck', 'givesCheck')):
+            obs.append(Ob('O3-ep-%s-K5@%d' % (ent[2:], col), uep, ent, '5-man positions, %s pawn captures en passant: %s == oracle (incl. rank and diagonal pins through the captured pawn)' % ('white' if col else 'black', what),
+                          unwind=65, unwindset='%s:9,%s:9' % (NP, NPS), param=par, core=False, tiers=('thorough',), timeout=3600, mem_gb=16, backend='kissat', functions=VF,
+                          stubs=['kernel models (lemmas O1-*)'], bounds='two kings + the capturing pawn + up to 2 further men of any kind (one of them is the pushed pawn); every en-passant capture',
+                          assumptions=['position domain = FEN-reader acceptance']))
     # ---- O2: generators (helpers recorded) + expansion lemmas
     GEN = ['pseudoLegalMoves (exact set, each move once)', 'checkEvasions (no legal evasion omitted; listed moves pseudo-legal; no duplicates)',
            'pseudoLegalCaptures (no legal capture / queen-knight promotion omitted)', 'pseudoLegalCapturesAndChecks (no legal capture, queen-knight promotion or checking move omitted)']
@@ -88,15 +101,18 @@ def build(tier):
                           stubs=['addMovesByMask/addPawnMovesByMask/addPawnDoubleMovesByMask -> recording models (justified by O2-expand)', 'slider/bit kernels -> models (justified by O1 lemmas)'],
                           bounds='two kings + %d further men of any kind and colour on any squares, castling rights / en-passant square as accepted by the FEN reader; candidate move (from,to,promotion) universally quantified' % (K - 2),
                           assumptions=['checkEvasions is only asked when the side to move is in check', 'under-promotions to rook/bishop are outside the class of the two capture generators (they emit queen and knight promotions only, by design)']))
-    # ---- O4: the real en-passant fix-up (real move list, no recording): extended, 4 men
-    uf = Unit('fixup4', 'C01/fixup.cpp', ['h_fixup'], defines={'NMEN': 4, 'ALLPRESENT': None}, aliases=SUBST, lemmas=['O1-rook', 'O1-bishop', 'O1-bits'],
-              allow_extern=[r'_ZN11NNEvaluator.*', r'_ZNSt.*', r'_ZNKSt.*', r'_ZSt.*', r'_ZN6TextIO(?!13fixupEPSquare).*', r'_Z.*ChessParseError.*', r'__cxa_\w+', r'_ZT[VI].*', r'_Z7num2Str.*', r'_Z9splitLines.*'])
-    units.append(uf)
+    # ---- O4a: fixupEPSquare's own scan on the contract of the legal move list (quick + thorough, 4 men)
+    # (no slider/bit kernel is reachable from the real code of this unit - the generators are replaced by their contract - so it needs no kernel substitution and no lemma)
+    SUBF = {'_ZN7MoveGen16pseudoLegalMovesERK8PositionR8MoveList': 'model_legalList', '_ZN7MoveGen13removeIllegalER8PositionR8MoveList': 'model_removeIllegalNop'}
+    ufa = Unit('fixupabs4', 'C01/fixup.cpp', ['h_fixup'], defines={'NMEN': 4, 'ABSLIST': None}, aliases=SUBF,
+               allow_extern=[r'_ZN11NNEvaluator.*', r'_ZNSt.*', r'_ZNKSt.*', r'_ZSt.*', r'_ZN6TextIO(?!13fixupEPSquare).*', r'_Z.*ChessParseError.*', r'__cxa_\w+', r'_ZT[VI].*', r'_Z7num2Str.*', r'_Z9splitLines.*', r'_ZN7MoveGen.*'])
+    units.append(ufa)
     for w in (0, 1):
-        obs.append(Ob('O4-fixupEP-K4@%d' % w, uf, 'h_fixup', '4-man positions with an en-passant square, %s to move: TextIO::fixupEPSquare keeps it iff a pawn can legally capture en passant; nothing else changes' % ('white' if w else 'black'),
-                      unwind=65, param=w, core=False, tiers=('thorough',) if tier == 'quick' else ('quick', 'thorough'), timeout=3600, mem_gb=16, backend='kissat',
-                      unwind_fn={r'_ZN7MoveGen16pseudoLegalMovesILb[01]EEEvRK8PositionR8MoveList': 29, r'_ZN7MoveGen14addMovesByMaskER8MoveList6Squarem': 29, r'_ZN7MoveGen18addPawnMovesByMaskILb[01]EEEvR8MoveListmib': 9,
-                                 r'_ZN7MoveGen24addPawnDoubleMovesByMaskER8MoveListmi': 9, r'_ZN7MoveGen13removeIllegalER8PositionR8MoveList': 60, r'_ZN6TextIO13fixupEPSquareER8Position': 60},
-                      functions=['TextIO::fixupEPSquare (textio.cpp:182-200)', 'MoveGen::pseudoLegalMoves', 'MoveGen::removeIllegal'], stubs=['kernel models (lemmas O1-*)'],
-                      bounds='two kings, the double-pushed pawn and one further man of any kind; any en-passant square the FEN reader accepts'))
+        obs.append(Ob('O4a-fixupEP-scan-K4@%d' % w, ufa, 'h_fixup', 'positions of up to 4 men with an en-passant square, %s to move: TextIO::fixupEPSquare keeps the square iff a pawn can legally capture en passant (its scan of the legal move list: destination and moving-piece test); nothing else changes; hash follows' % ('white' if w else 'black'),
+                      unwind=65, param=w, core=True, timeout=1800, mem_gb=12, backend='kissat', unwind_fn={r'_ZN6TextIO13fixupEPSquareER8Position': 6},
+                      functions=['TextIO::fixupEPSquare (textio.cpp:182-200)', 'Position::setEpSquare'],
+                      stubs=['pseudoLegalMoves + removeIllegal -> their contract (C01 O2/O3): an arbitrary list of <= 4 legal moves containing every legal move onto the ep square (at most 3 men of the side to move can go there)'],
+                      bounds='two kings + up to 2 further men of any kind; any en-passant square the FEN reader accepts; legal-move list abstracted to <= 4 entries (the scan treats entries independently)'))
+    # (the same check on the real, unabstracted move list - pseudoLegalMoves + removeIllegal writing a 256-entry MoveList inside fixupEPSquare - exhausts 16 GB in
+    #  propositional reduction already at 3 men; the list contract used above is what O2-gen/O3-removeillegal establish)
     return units, obs
